@@ -3,7 +3,7 @@ SIM = ("Trusted base: the simulated pika broker and the time model of DESIGN.md 
        "RabbitMQ offline); virtual clock/uuid seams; CPython. Bounds: the scenario corpus named in the evidence file.")
 ENGINES = [
     {"name": "explorer", "path": "harness/explorer.py", "kind_free_text": "stateless DFS explicit-state model checker over the real engine on a simulated broker (replay + fingerprint dedup + deviation bound)",
-     "serves_properties": ["C03", "C08"]},
+     "serves_properties": ["C02", "C03", "C05", "C06", "C08", "C09", "C11"]},
     {"name": "enumerator", "path": "checks/common.py", "kind_free_text": "exhaustive small-scope enumeration of inputs/programs from a stated finite alphabet, each evaluated on the real code and on a reference model under /verif/ref",
      "serves_properties": ["C01", "C08", "C12", "C14"]},
 ]
@@ -51,5 +51,21 @@ CHECKS["C01"] = {
     "note": ENUM + " " + SIM,
     "technique": "exhaustive small-scope enumeration of programs x inputs x task outcomes against a reference interpreter (bounded model checking, explicit enumeration)",
 }
+
+_MC = "explicit-state model checking of the implementation (exhaustive interleaving exploration of the real engine over a simulated broker, state fingerprints, property monitors)"
+def _mc(text):
+    return {"engine": "explorer", "text": text, "note": SIM, "technique": _MC}
+CHECKS["C02"] = _mc("All interleavings of deliveries, worker replies and timers (closed exploration, fingerprint-deduplicated) of the sequential, fan-out-succeeds and single-unhandled-failure "
+    "scenario families, incl. concurrent executions, retries, time-outs, EXPRESS, a raw start event and an async child launch; M-life (one RUNNING, exactly one terminal notification, "
+    "frozen terminal record, record shape) after every step, liveness at every quiescent state, and the terminal result compared with the reference interpreter on every schedule.")
+CHECKS["C05"] = _mc("All interleavings (closed) of Parallel 2x1/2x2/3x1/mixed, Map over arrays of every length 0..N with every MaxConcurrency 0..length+1, Map-in-Parallel and Parallel-in-Map; "
+    "output equals the reference on every schedule, the state after the join is entered only after every branch event, each item started and requested exactly once, requests in flight <= MaxConcurrency after every broker operation.")
+CHECKS["C06"] = _mc("All interleavings (closed) of Parallel/Map shapes x failure assignments (one, both, Fail state, failing item) x {no handler, Catch, Retry, Retry+Catch} x sibling activity "
+    "(task outstanding, in a Wait, queued) x nesting; after a fan-out attempt has failed no branch of it publishes an event or issues an RPC request, exactly one terminal notification, "
+    "nothing appended to the history after the end, everything drained, result equals the reference.")
+CHECKS["C09"] = _mc("M-hist evaluated on the complete history after every step of every interleaving of the handler-coverage, sequential, fan-out and fan-out-failure families: numbering, "
+    "previousEventId, timestamps, ExecutionStarted, exactly one terminal event that agrees with the record and is last, entered/exited pairing and order along the transitions taken, EXPRESS stores nothing.")
+CHECKS["C11"] = _mc("M-views evaluated after every step of every interleaving of the same families: record vs last notification vs history terminal event, each status published once to '<stateMachineArn>.<status>' "
+    "in the CloudWatch shape with integer-millisecond dates while the stored record keeps epoch seconds.")
 NA = {}
 NOTES = "All checks run the real code of /repo's working tree (imported by path) over /verif/sim; see DESIGN.md."
